@@ -33,8 +33,10 @@ def build(chk):
         else:
             lens = sorted({0, 1, 2, n - 1, n - 2, n // 2, n // 2 - 1, n // 2 + 1, n // 4, n // 4 + 1, 3 * n // 4} | {rng.randrange(n) for _ in range(3 if quick else 12)})
         for ln in lens:
-            for variant in ("literal", "witness", "computed"):
+            for variant in ("literal", "witness", "computed", "mixed"):
                 if n > 16 and variant != "literal" and ln not in (0, n - 1, n // 2):
+                    continue
+                if variant == "mixed" and (ln == 0 or n > 32):
                     continue
                 for fname, ftext, ety in (("order", F_ORDER, ("U", 3)), ("panic", F_PANIC, ("U", 3)), ("pair", F_PAIR, ("T", (("U", 2), ("B",)))), ("opt", F_OPT, ("O", ("U", 1)))):
                     if fname in ("pair", "opt") and (n > 16 or variant != "literal"):
@@ -53,6 +55,18 @@ def build(chk):
                     elif variant == "witness":
                         src = "witness::L"
                         wits.append(("L", lt, lv))
+                    elif variant == "mixed":
+                        # a literal whose elements are partly constants, partly computed (a witness, a block, a call)
+                        if fname != "order" and fname != "panic":
+                            continue
+                        j = rng.randrange(ln)
+                        parts = [gen.val_src(e) for e in els]
+                        parts[j] = "witness::E"
+                        if ln > 1:
+                            j2 = (j + 1 + rng.randrange(ln - 1)) % ln
+                            parts[j2] = "{ let q: u8 = %s; q }" % parts[j2]
+                        src = "list![%s]" % ", ".join(parts)
+                        wits.append(("E", ety, els[j]))
                     else:
                         # computed: the list comes out of a block / match / function
                         src = "{ let t: (bool, List<%s, %d>) = (true, %s); match t { (b, l) => l } }" % (gen.ty_src(ety), n, gen.val_src(lv))
